@@ -20,6 +20,8 @@ struct Plan
 {
   bool isFloat = false; int dim = 2;
   double res = 0.1; double lower[3] = {0, 0, 0}, upper[3] = {1, 1, 1};
+  bool defaultCtor = false;   // RayCasting() + setGridIndexMapping instead of RayCasting(mapping)
+  bool rangeCtor = false;     // GridIndexMapping(maximalRange, resolution): extent [-range, range] on every axis
   std::vector<Op> ops;
 };
 
@@ -35,8 +37,11 @@ Outcome runCaster(const Plan & p, Ctx & c)
   using Pt = typename RC::PointType; using CI = typename RC::CellIndexes;
   using Ray = romea::core::VectorOfEigenVector<CI>;
   Pt lo, up; for (size_t k = 0; k < DIM; ++k) {lo[(long)k] = (S)p.lower[k]; up[(long)k] = (S)p.upper[k];}
-  std::unique_ptr<Map> map(new Map(romea::core::Interval<S, DIM>(lo, up), (S)p.res));
-  std::unique_ptr<RC> rc(new RC(map.get()));
+  if (p.rangeCtor) {for (size_t k = 0; k < DIM; ++k) {lo[(long)k] = -(S)p.upper[0]; up[(long)k] = (S)p.upper[0];}}
+  std::unique_ptr<Map> map(p.rangeCtor ? new Map((S)p.upper[0], (S)p.res) : new Map(romea::core::Interval<S, DIM>(lo, up), (S)p.res));
+  std::unique_ptr<RC> rc(p.defaultCtor ? new RC() : new RC(map.get()));
+  if (p.defaultCtor) {rc->setGridIndexMapping(map.get()); SIM_PROBE("caster_default_constructed_then_given_the_grid");}
+  if (p.rangeCtor) {SIM_PROBE("grid_built_from_maximal_range");}
   const long double res = (long double)map->getCellResolution();
   size_t ncell[3] = {1, 1, 1}; long double maxCoord = 0;
   for (size_t k = 0; k < DIM; ++k) {
@@ -139,6 +144,9 @@ Outcome runCaster(const Plan & p, Ctx & c)
                  rc->getEndPointIndexes() != ray.back() ? "differ" : "agree"));
       }
       if (rc->getEndPointIndexes() != ray.back()) {SIM_PROBE("ray_ends_in_a_neighbour_of_the_end_index_cell_border_case");}
+      if (rc->getOriginPoint() != o || rc->getEndPoint() != e) {
+        return Outcome::fail("accessors-disagree-with-cast", fmt("op #%zu (%s): getOriginPoint()/getEndPoint() are not the points of this cast", no, how));
+      }
       // classification probes
       size_t zeroAxes = 0; for (size_t k = 0; k < DIM; ++k) {if (o[(long)k] == e[(long)k]) {++zeroAxes;}}
       if (zeroAxes == DIM) {SIM_PROBE("coincident_origin_and_end");} else if (zeroAxes > 0) {SIM_PROBE("axis_aligned_ray_zero_step_axis");}
@@ -245,6 +253,8 @@ struct PropC14
       double centre0 = r.chance(0.5) ? 0 : r.uniform(-50, 50);
       p.lower[k] = centre0 - 0.5 * cells * p.res; p.upper[k] = centre0 + 0.5 * cells * p.res;
     }
+    p.defaultCtor = r.chance(0.2);
+    if (r.chance(0.15)) {p.rangeCtor = true; double range = std::max(p.upper[0] - p.lower[0], p.res) * 0.5; for (int k = 0; k < 3; ++k) {p.lower[k] = -range; p.upper[k] = range;}}
     auto point = [&](double * v, const double * other) {
         int cls = (int)r.below(10);
         for (int k = 0; k < p.dim; ++k) {
@@ -294,7 +304,7 @@ struct PropC14
     Json j = Json::object();
     j.set("scalar", p.isFloat ? "float" : "double").set("is_float", p.isFloat).set("dim", p.dim).set("resolution", p.res);
     Json lo = Json::array(), up = Json::array(); for (int k = 0; k < p.dim; ++k) {lo.push(p.lower[k]); up.push(p.upper[k]);}
-    j.set("lower", lo).set("upper", up);
+    j.set("lower", lo).set("upper", up).set("caster_default_ctor", p.defaultCtor).set("grid_from_maximal_range", p.rangeCtor);
     Json ops = Json::array();
     for (auto & o : p.ops) {
       Json e = Json::object(); e.set("op", kOpName[o.kind]).set("kind", o.kind);
@@ -309,6 +319,7 @@ struct PropC14
   {
     Plan p; p.isFloat = j["is_float"].b(); p.dim = (int)j["dim"].i(); p.res = j["resolution"].d();
     for (int k = 0; k < p.dim; ++k) {p.lower[k] = j["lower"][k].d(); p.upper[k] = j["upper"][k].d();}
+    p.defaultCtor = j["caster_default_ctor"].b(); p.rangeCtor = j["grid_from_maximal_range"].b();
     for (auto & e : j["ops"].a()) {
       Op o; o.kind = (int)e["kind"].i(); for (int k = 0; k < p.dim; ++k) {o.o[k] = e["origin"][k].d(); o.e[k] = e["end"][k].d();}
       if (e.has("count")) {o.count = (int)e["count"].i();}
@@ -321,6 +332,7 @@ struct PropC14
     std::vector<Plan> out;
     removalCandidates(p.ops, [&](std::vector<Op> v) {Plan q = p; q.ops = std::move(v); out.push_back(q);});
     if (p.isFloat) {Plan q = p; q.isFloat = false; out.push_back(q);}
+    if (p.defaultCtor) {Plan q = p; q.defaultCtor = false; out.push_back(q);}
     for (size_t k = 0; k < p.ops.size(); ++k) {
       const Op & o = p.ops[k];
       if (o.kind == NEXT_BURST && o.count > 1) {Plan q = p; q.ops[k].count = o.count / 2; out.push_back(q);}
@@ -370,7 +382,8 @@ struct PropC14
   {
     return {"end_point_on_or_near_a_cell_border", "coincident_origin_and_end", "axis_aligned_ray_zero_step_axis", "origin_and_end_in_same_cell",
       "exact_diagonal_ray", "ray_longer_than_1000_cells", "cast_after_traversal_state_was_consumed",
-      "ray_ends_in_a_neighbour_of_the_end_index_cell_border_case"};
+      "ray_ends_in_a_neighbour_of_the_end_index_cell_border_case",
+      "caster_default_constructed_then_given_the_grid", "grid_built_from_maximal_range"};
   }
   Json describe() const
   {
